@@ -64,6 +64,8 @@ def run(ctx):
         cfgs = [("FileWorker_c11a_quick.cfg", 6), ("FileWorker_c11b_quick.cfg", 6)]
     else:
         cfgs = [("FileWorker_c11a_thorough.cfg", 8), ("FileWorker_c11b_thorough.cfg", 8)]
-    fc.run(ctx, "C11", fc.C11, cfgs)
-    if ctx.replay_case() is None:
+    rc = ctx.replay_case()
+    if rc is None or "tlc_counterexample" not in rc:
+        fc.run(ctx, "C11", fc.C11, cfgs)
+    if rc is None or "tlc_counterexample" in rc:
         f15(ctx)
